@@ -65,7 +65,7 @@ package db
 //@   props C06
 //@   opt params=self
 //@   modifies lk_shared db.filePager.readLock
-//@   trusted-ensures err == nil ==> !lk_shared
+//@   trusted-ensures !lk_shared
 
 //@ iface db.pager.Close
 //@   opt params=self
@@ -121,13 +121,8 @@ package db
 //@   props C06
 //@   modifies lk_shared db.filePager.readLock
 //@   requires db != nil
-//@   ensures [unlock] err == nil ==> !lk_shared
+//@   ensures [unlock] !lk_shared
 
-// validJournal: true iff the journal file is hot in SQLite's sense (see the journal contracts).
-//@ func db.validJournal
-//@   props C09
-//@   pure
-//@   trusted file I/O model pending (os.Open / File.Read)
 
 // CACHE_OK(db): every cached node is the decode of its page as of the change counter in the handle's header.
 //@ macro CACHE_OK(d) = (forall q int :: has(d.btreeCache.elem, q) ==> repr(d.btreeCache.elem[q], q, d.header.ChangeCounter))
